@@ -121,23 +121,53 @@ def r1_vocabulary(ctx):
                  '' if ok else 'id %r does not resolve to this node\'s position (expected a designator like %s): the value lands elsewhere on the way back' % (n.id, want))
 
 
-def _replace_chain(f):
-    rets = [n for n in ast.walk(f) if isinstance(n, ast.Return) and isinstance(n.value, ast.Call)]
-    if not rets:
-        raise AnalysisError('%s: replace chain not found' % f.name)
+def _replace_chain(f, ctx=None, depth=0):
+    """ordered list of (char, entity) substitutions applied to the parameter, through the idioms the repository (or a
+    plausible refactoring) uses: a chain of .replace() calls, statements `x = x.replace(..)`, a loop over a table of pairs,
+    and delegation to a sibling escaper followed by more replacements"""
+    param = f.args.args[-1].arg
     chain = []
-    e = rets[-1].value
-    while isinstance(e, ast.Call) and A.call_target(e)[1] == 'replace':
-        chain.insert(0, (A.const(e.args[0]), A.const(e.args[1])))
-        e = e.func.value
-    return chain, path_of(e)
+    base = None
+
+    def chain_of(e):
+        out = []
+        while isinstance(e, ast.Call) and A.call_target(e)[1] == 'replace' and len(e.args) == 2:
+            out.insert(0, (A.const(e.args[0]), A.const(e.args[1])))
+            e = e.func.value
+        return out, e
+    for st in f.body:
+        if isinstance(st, ast.For) and isinstance(st.iter, (ast.Tuple, ast.List)) and isinstance(st.target, ast.Tuple) and len(st.target.elts) == 2:
+            a, b = [path_of(x) for x in st.target.elts]
+            uses = [c for c in A.calls_in(st) if A.call_target(c)[1] == 'replace' and [path_of(x) for x in c.args] == [a, b]]
+            if uses:
+                for pair in st.iter.elts:
+                    if isinstance(pair, (ast.Tuple, ast.List)) and len(pair.elts) == 2:
+                        chain.append((A.const(pair.elts[0]), A.const(pair.elts[1])))
+                base = base or path_of(uses[0].func.value)
+        elif isinstance(st, (ast.Assign, ast.Return)) and st.value is not None:
+            sub, e = chain_of(st.value)
+            if isinstance(e, ast.Call) and A.call_target(e)[0] == 'self' and ctx is not None and depth < 2:
+                # delegation: self._escape_cont(text).replace(...)
+                g = ctx.func('xmlwriter', 'XMLWriter.' + A.call_target(e)[1], required=False)
+                if g is not None:
+                    inner, b2 = _replace_chain(g, ctx, depth + 1)
+                    chain += inner
+                    base = base or (path_of(e.args[0]) if e.args else None)
+                    chain += sub
+                    continue
+            if sub:
+                chain += sub
+                base = base or path_of(e)
+    if not chain:
+        raise AnalysisError('%s: no substitution idiom recognised' % f.name)
+    return chain, base
 
 
 def r2_escaping(ctx):
     cls = ctx.cls('xmlwriter', 'XMLWriter')
     for meth, need in (('_escape_cont', ['&', '<']), ('_escape_attr', ['&', '<', "'"])):
         f = ctx.func('xmlwriter', 'XMLWriter.' + meth)
-        chain, base = _replace_chain(f)
+        chain, base = _replace_chain(f, ctx)
         srcs = [a for a, b in chain]
         ok = bool(srcs) and srcs[0] == '&' and base == f.args.args[1].arg
         yield Ob('xmlwriter:XMLWriter.%s replaces & first' % meth, ok, ctx.floc(f), '' if ok else 'chain %s on %s' % (srcs, base))
